@@ -77,8 +77,20 @@ func mkWriterJob(r *prng.R) job {
 var ticket int64
 var order []int32
 
+// useTickets: record which goroutine ran at every boundary call (interleaving signature).
+// The atomic counter this needs also orders the goroutines for the race detector (an atomic
+// add is a release/acquire pair), which can hide a race between accesses on either side of
+// two boundary calls; some processes therefore run without it.
+var useTickets = true
+
 // boundary is called from every sink/source call: records who ran and yields.
 func boundary(g int32, r *prng.R) {
+	if !useTickets {
+		if r.Chance(1, 3) {
+			runtime.Gosched()
+		}
+		return
+	}
 	t := atomic.AddInt64(&ticket, 1) - 1
 	if int(t) < len(order) {
 		atomic.StoreInt32(&order[t], g+1)
@@ -254,7 +266,9 @@ func digest(b []byte) string { h := sha256.Sum256(b); return hex.EncodeToString(
 func main() {
 	seed := flag.Uint64("seed", 1, "")
 	rounds := flag.Int("rounds", 4, "")
+	tk := flag.Bool("tickets", true, "")
 	flag.Parse()
+	useTickets = *tk
 	res := result{GOMAXPROCS: runtime.GOMAXPROCS(0), Rounds: *rounds, Digests: map[string]string{}, Kinds: map[string]int{}}
 	r := prng.New(*seed, 14)
 	var mu sync.Mutex
